@@ -307,3 +307,53 @@ def _inv_ref_new_inner(lv):
     c = lv.ctx; self_ = lv.env['self'][1]; o = lv.outer; base = o.hl
     return opins_created(lv, lambda i, q: And(i == self_, base['alloc'][q], c.cls(q) == c.C['InnerPin'], base['_port'][q] != c.null,
                                               Or(o.seen[base['_port'][q]], And(base['_port'][q] == o.it, lv.seen[q]))), base)
+
+
+# ------------------------------------------------------------------------------------------------ Instance.reference = v  (re-pointing)
+REPOINT_MODS = ['okeys', 'ovals', '_inner_pin']
+
+
+def _repoint_inv(lv, A, B, base):
+    """after the positions lexicographically below (A, B) have been re-keyed: the outer pin that sat on pin (a, b) of the old
+    definition now sits on pin (a, b) of the new one -- same object, inner_pin updated; everything else untouched"""
+    c = lv.ctx; h = lv.h; self_ = lv.env['self'][1]; v = lv.env['value'][1]
+    d = lv.hf['_reference'][self_]
+    at, idx, cnt = c.at, c.idx, c.cnt
+    ports = base['_ports']; pins = base['_pins']; portof = base['_port']; defof = base['_definition']; A0 = base['alloc']
+    isIP = lambda q: And(A0[q], c.cls(q) == c.C['InnerPin'])
+    isOld = lambda q: And(isIP(q), portof[q] != c.null, defof[portof[q]] == d)
+    isNew = lambda q: And(isIP(q), portof[q] != c.null, defof[portof[q]] == v)
+    posOld = lambda q: (idx(ports[d], portof[q]), idx(pins[portof[q]], q))
+    posNew = lambda q: (idx(ports[v], portof[q]), idx(pins[portof[q]], q))
+    oldpin = lambda a, b: at(pins[at(ports[d], a)], b)
+    newpin = lambda a, b: at(pins[at(ports[v], a)], b)
+    proc = lambda ab: Or(ab[0] < A, And(ab[0] == A, ab[1] < B))
+    keys0, vals0, ip0 = base['okeys'][self_], base['ovals'][self_], base['_inner_pin']
+    keys, vals, ip = h['okeys'][self_], h['ovals'][self_], h['_inner_pin']
+    doneOld = lambda q: And(isOld(q), proc(posOld(q)))
+    doneNew = lambda q: And(isNew(q), proc(posNew(q)))
+    mine = lambda o: And(A0[o], c.cls(o) == c.C['OuterPin'], base['_instance'][o] == self_, keys0[ip0[o]], vals0[ip0[o]] == o)
+    return [
+        ('C02', 'keys', c.forall(['q'], lambda q: keys[q] == Or(And(keys0[q], Not(doneOld(q))), doneNew(q)), lambda q: [keys[q]])),
+        ('C02', 'moved-values', c.forall(['q'], lambda q: Implies(doneNew(q), And(vals[q] == vals0[oldpin(*posNew(q))], ip[vals[q]] == q)),
+                                         lambda q: [vals[q]])),
+        ('C02', 'kept-values', c.forall(['q'], lambda q: Implies(And(keys0[q], Not(doneOld(q)), Not(doneNew(q))),
+                                        And(vals[q] == vals0[q], ip[vals[q]] == q)), lambda q: [vals[q]])),
+        ('C02', 'moved-pins', c.forall(['o'], lambda o: Implies(mine(o), If(doneOld(ip0[o]),
+                                       And(ip[o] == newpin(*posOld(ip0[o])), keys[ip[o]], vals[ip[o]] == o), ip[o] == ip0[o])),
+                                       lambda o: [ip[o], ip0[o]])),
+        ('C14', 'other-pins', c.forall(['o'], lambda o: Implies(Not(mine(o)), ip[o] == ip0[o]), lambda o: [ip[o]])),
+        ('C14', 'other-instances', c.forall(['i'], lambda i: Implies(i != self_, And(h['okeys'][i] == base['okeys'][i],
+                                            h['ovals'][i] == base['ovals'][i])), lambda i: [h['okeys'][i], h['ovals'][i]])),
+    ]
+
+
+@loop_spec('Instance.reference=', 1, 'zip', REPOINT_MODS)
+def _inv_repoint_outer(lv):
+    from z3 import IntVal
+    return _repoint_inv(lv, lv.i, IntVal(0), lv.hl)
+
+
+@loop_spec('Instance.reference=', 2, 'zip', REPOINT_MODS)
+def _inv_repoint_inner(lv):
+    return _repoint_inv(lv, lv.outer.i, lv.i, lv.outer.hl)
